@@ -184,7 +184,7 @@ def check_C08(ctx):
         srcs.append(pad + pre + rng.choice([b"", b"  ", b"\n \t"]) + bad + post)
     cases = [dict(id="d%d" % i, src=s) for i, s in enumerate(srcs)]
     rs, missing, err = interp.run(ctx, cases)
-    decide(ctx, rs, missing, err, {"log", "err", "parts"}, "C08_compile_diag/C08_runtime", "diag")
+    decide(ctx, rs, missing, err, {"log", "err", "parts"}, "C08_compile_diag/C08_runtime", "diag", spec=False)
     # implementation against the documented rule, no model: token quoted ends at the reported offset
     nd = 0
     for c, o, m in rs:
@@ -304,7 +304,7 @@ def check_C19(ctx):
         for o in COMBOS:
             cases.append(dict(id="o%d/%s" % (i, o), src=p, opts=o, name=rng.choice(["input", "", "f.bcl"]) if False else "input"))
     rs, missing, err = interp.run(ctx, cases)
-    decide(ctx, rs, missing, err, {"out", "blocks", "binding", "err", "log"}, "C19_results_equal", "opts")
+    decide(ctx, rs, missing, err, {"out", "blocks", "binding", "err", "log"}, "C19_results_equal", "opts", spec=False)
     by = {}
     for c, o, m in rs:
         if o is not None:
